@@ -80,6 +80,10 @@ CHECKS["C19"] = ("fvh-blackbox", "generated collections and full cursor iteratio
          "one case = a collection (key space with six types, or one hash/set/sorted set) of stable plus volatile elements, one full SCAN/HSCAN/SSCAN/ZSCAN iteration with generated COUNT, MATCH, TYPE, and a generated batch of additions and deletions of volatile elements after each call. Oracle: every stable element satisfying the filters is returned; every returned element existed and satisfies MATCH (model glob) and TYPE; HSCAN values / ZSCAN scores are the element's own; the iteration terminates within n/COUNT + 12 calls after modifications stop.",
          "elements whose value or score changes during the iteration are not generated; COUNT 0 and malformed options are not part of the property", "3/C19")
 
+CHECKS["C16"] = ("fvh-blackbox", "model-based generated consumer-group histories against a reference model (cursor, pending map, consumer set) with all observable representations of the pending set compared after every step",
+         "generated histories over two streams, two groups, four consumers (XADD, XGROUP CREATE at 0/$/ID with/without MKSTREAM, DESTROY, SETID incl. backwards, CREATECONSUMER, DELCONSUMER, XREADGROUP > with COUNT/NOACK, explicit-ID re-reads, XACK of pending/acknowledged/unknown/repeated IDs, XCLAIM with min-idle 0 / one hour, JUSTID, XDEL of non-pending entries); a model decides every reply, and after every step XPENDING summary, XPENDING ranges (overall, per consumer, sub-range with count, reversed), XINFO GROUPS and XINFO CONSUMERS must all equal the model.",
+         "delivery counters and idle times are not compared; pending entries are never deleted by the generator; whether a read/claim that delivers nothing creates its consumer is adopted from the first observation; the duplicated counters are observed through the commands that expose them, so no in-process hook was needed", "3/C16")
+
 checks = []
 for i in ids:
     if i in CHECKS:
